@@ -84,6 +84,28 @@ pub fn materialize(syms: &[Sym], base_old: usize, base_new: usize) -> Vec<DiffOp
     out
 }
 
+/// like `materialize`, with every equal-run length multiplied by `scale`
+pub fn materialize_scaled(syms: &[Sym], scale: usize) -> Vec<DiffOp> {
+    let scaled: Vec<Sym> = syms
+        .iter()
+        .map(|s| match *s {
+            Sym::E(l) => Sym::E(l * scale),
+            c => c,
+        })
+        .collect();
+    materialize(&scaled, 0, 0)
+}
+
+pub const SCALES: [usize; 4] = [1, (1 << 32) - 1, (1 << 32) + 3, 1 << 40];
+
+/// radii for a given scale: multiples of the scale plus the extreme values of usize
+pub fn huge_radii(scale: usize) -> Vec<usize> {
+    let mut v = vec![0, scale, 2 * scale, 3 * scale, 3 * scale + 1, usize::MAX / 2, usize::MAX / 2 + 1, usize::MAX - 1, usize::MAX];
+    v.sort();
+    v.dedup();
+    v
+}
+
 /// Item-wise reference grouping (zero-length Equal ops never appear).
 pub fn reference_groups(ops: &[DiffOp], n: usize) -> Vec<Vec<DiffOp>> {
     let changes: Vec<usize> = ops
@@ -124,7 +146,7 @@ pub fn reference_groups(ops: &[DiffOp], n: usize) -> Vec<Vec<DiffOp>> {
                 if keep > 0 {
                     groups.last_mut().unwrap().push(eq(old_index, new_index, keep));
                 }
-            } else if len > 2 * n {
+            } else if (len as u128) > 2 * (n as u128) {
                 if n > 0 {
                     groups.last_mut().unwrap().push(eq(old_index, new_index, n));
                 }
@@ -453,6 +475,65 @@ pub fn run(cfg: &RunCfg) -> CheckReport {
     if rep.has_violation() {
         return rep;
     }
+    // huge radii and run lengths (op lists are only index ranges, so they cost nothing to build):
+    // every list of <= 4 ops with equal runs 1..=emax scaled by each factor, radii = multiples
+    // of the factor and the extreme values of usize (`context_radius(usize::MAX)` = "whole file")
+    {
+        let mut lists: Vec<Vec<Sym>> = vec![];
+        fn gen(cur: &mut Vec<Sym>, out: &mut Vec<Vec<Sym>>, emax: usize, max_ops: usize) {
+            if !cur.is_empty() {
+                out.push(cur.clone());
+            }
+            if cur.len() == max_ops {
+                return;
+            }
+            let next_equal = matches!(cur.last(), Some(Sym::C(_)));
+            let next_change = matches!(cur.last(), Some(Sym::E(_)));
+            if cur.is_empty() || next_equal {
+                for l in 1..=emax {
+                    cur.push(Sym::E(l));
+                    gen(cur, out, emax, max_ops);
+                    cur.pop();
+                }
+            }
+            if cur.is_empty() || next_change {
+                for &k in KINDS3.iter() {
+                    cur.push(Sym::C(k));
+                    gen(cur, out, emax, max_ops);
+                    cur.pop();
+                }
+            }
+        }
+        gen(&mut vec![], &mut lists, emax, 4);
+        let chunk = 64;
+        let nsh = (lists.len() + chunk - 1) / chunk;
+        let ex = explore(cfg, nsh, |shard, acc| {
+            for syms in &lists[shard * chunk..((shard + 1) * chunk).min(lists.len())] {
+                for &scale in SCALES.iter() {
+                    let ops = materialize_scaled(syms, scale);
+                    for n in huge_radii(scale) {
+                        match check_list(&ops, n) {
+                            Ok(fp) => {
+                                if acc.want_sample() {
+                                    acc.sample(json!({"list": syms_json(syms), "scale": scale, "n": n}));
+                                }
+                                let nch = syms.iter().filter(|s| matches!(s, Sym::C(_))).count();
+                                acc.ok(nch >= 2, syms.len() as u64, fp);
+                            }
+                            Err(e) => acc.violation(|| (json!({"list": syms_json(syms), "scale": scale, "n": n}), e)),
+                        }
+                        if acc.stop() {
+                            return;
+                        }
+                    }
+                }
+            }
+        });
+        rep.part("huge-radii", json!({"lists": lists.len(), "max_ops": 4, "scales": SCALES, "radii": "0, s, 2s, 3s, 3s+1, usize::MAX/2, usize::MAX/2+1, usize::MAX-1, usize::MAX"}), ex);
+        if rep.has_violation() {
+            return rep;
+        }
+    }
     // (the single-Equal list and the empty list)
     for ops in [vec![], materialize(&[Sym::E(3)], 0, 0)] {
         for &n in &radii {
@@ -489,6 +570,13 @@ pub fn run(cfg: &RunCfg) -> CheckReport {
 }
 
 pub fn replay(case: &Value) -> Result<String, String> {
+    if case.get("scale").is_some() {
+        let syms = syms_from_json(&case["list"])?;
+        let n = parse_u64(case, "n")? as usize;
+        let scale = parse_u64(case, "scale")? as usize;
+        let ops = materialize_scaled(&syms, scale);
+        return check_list(&ops, n).map(|f| format!("holds; fingerprint {:x}", f));
+    }
     if case.get("list").is_some() {
         let syms = syms_from_json(&case["list"])?;
         let n = parse_u64(case, "n")? as usize;
